@@ -2,7 +2,7 @@
     [sieve N] is the model of [Sieve::new(N)] (Model.v); [pdiv], [prime], [prime_decomp] are the
     Mathematical Components definitions (least divisor > 1, primality, sorted factorisation). *)
 From mathcomp Require Import all_ssreflect.
-From RlibV Require Import C13.Model C13.ProofsBreak C13.ProofsInv.
+From RlibV Require Import C13.Model C13.ProofsBreak C13.ProofsInv C13.Ghost C13.ProofsFact C13.ProofsFinite C13.ProofsOnce.
 
 (** the loop invariant: the state after the outer iterations with index 2 .. i (i = k+1) of a table
     of length n: cells up to i hold their least prime factor (0 for 0 and 1); a cell above i holds
@@ -39,3 +39,41 @@ Proof. exact sizes_correct. Qed.
 Theorem c13_break_is_takewhile : forall (n i : nat) (ps m : seq nat),
   0 < i -> 1 \notin ps -> inner n i ps m = inner_tw n i ps m.
 Proof. exact inner_takewhile. Qed.
+
+(** factorize(n).collect() is the prime decomposition: the strictly increasing primes of n with
+    their exact exponents ([prime_decomp], see [prime_decomp_correct]); [Some] = no panic, fuel suffices *)
+Theorem c13_factorize : forall N n : nat, 0 < n <= N -> factorize (sieve N) n = Some (prime_decomp n).
+Proof. exact factorize_correct. Qed.
+
+(** the same spelled out: the result lists primes with positive exponents, strictly increasing,
+    whose product of powers is n (by unique factorisation this determines the list) *)
+Theorem c13_factorize_spec : forall N n : nat, 0 < n <= N ->
+  exists2 f, factorize (sieve N) n = Some f &
+    [/\ n = \prod_(pc <- f) pc.1 ^ pc.2, all (fun pc => prime pc.1 && (0 < pc.2)) f
+      & sorted ltn (unzip1 f)].
+Proof. exact factorize_spec. Qed.
+
+(** nothing for 1 (the table is not even read: any limit, including 0) *)
+Theorem c13_factorize_one : forall N : nat, factorize (sieve N) 1 = Some [::].
+Proof. exact factorize_1. Qed.
+
+(** finite domain, by computation alone (independent of the proofs above): every limit N <= 600 *)
+Theorem c13_all_limits_upto_K : forall N : nat, N <= 600 ->
+  [/\ forall n, 1 < n <= N -> min_prime (sieve N) n = pdiv n,
+      forall n, n <= N -> is_prime (sieve N) n = prime n,
+      primes_of (sieve N) = [seq p <- iota 0 N.+1 | prime p] &
+      forall n, 0 < n <= N -> factorize (sieve N) n = Some (prime_decomp n)].
+Proof. exact all_limits_upto_600. Qed.
+
+(** no cell is written twice: [sieve_g] is the model instrumented with a ghost table counting the
+    assignments to each cell of mnp (ProofsOnce.v); erasing the ghost gives the model, and at the end
+    every cell 2..N has been assigned exactly once, every other cell never *)
+Theorem c13_written_once : forall N : nat,
+  (sieve_g N).1 = sieve N /\ forall m, nth 0 (sieve_g N).2 m = (1 < m <= N).
+Proof. exact written_once. Qed.
+
+(** and at every intermediate state (after the outer steps 2 .. k+1): assigned once iff non-zero *)
+Theorem c13_written_once_upto : forall n k : nat, k.+1 < n ->
+  (sieve_upto_g n k).1 = sieve_upto n k /\
+  forall x, nth 0 (sieve_upto_g n k).2 x = (nth 0 (mnp (sieve_upto n k)) x != 0).
+Proof. exact written_once_upto. Qed.
